@@ -64,7 +64,7 @@ def ref_set_compiles(decls, attrs=()):
 
 def plan(tier):
     if tier == 'thorough':
-        return dict(small=[dict(n=2, parts=2), dict(n=2, parts=3), dict(n=3, parts=2)], per=3000, corpus_pairs=None)
+        return dict(small=[dict(n=2, parts=2), dict(n=2, parts=3, queries_only=True), dict(n=3, parts=2, queries_only=True)], per=3000, corpus_pairs=None)
     return dict(small=[dict(n=2, parts=2)], per=420, corpus_pairs=160)
 
 
@@ -177,7 +177,8 @@ def check(run):
         raise Inconclusive('vacuity twin found nothing: the obligations are not being exercised')
     bounds = {}
     for i, p in enumerate(pl['small']):
-        stt = go(f"{p['n']} declarations of 1..{p['parts']} parts, letters symbolic over A/B and a/b, optional flags and kinds forked", dict(p, mode='small'), pl['per'], required=(i == 0))
+        stt = go(f"{p['n']} declarations of 1..{p['parts']} parts, letters symbolic over A/B and a/b, optional flags" + (' forked, queries only' if p.get('queries_only') else ' and kinds forked'),
+                 dict(p, mode='small'), pl['per'], required=(i == 0))
         if stt['complete']:
             bounds[f"small n={p['n']}"] = p['parts']
     go('2 queries of 1..2 parts: one letter A/B, optional a/b, optional trailing 1/2/_ (characters without case), optional flags forked',
